@@ -300,11 +300,11 @@ func Scenarios() []*Scenario {
 
 	// ---- the peer pipelines its next stream header behind the element that restarts the
 	// stream, in the same Read: the bytes sit in the old decoder's buffer and are lost
-	add(&Scenario{Name: "init-pipelined-behind-success", Entry: "initiator/pipelined-behind-restart", Neg: "std", Bits: bSecure, Feats: sb,
+	add(&Scenario{Name: "init-pipelined-behind-success", Entry: "initiator/pipelined-behind-restart", Neg: "std", Bits: bSecure, Feats: sb, NoReseg: true,
 		Clear: Stream{srvHeader("1.0", true), featuresSeg(false, advSASL(0, "PLAIN")),
 			SegOf(append(saslSuccess(0).Units, srvHeader("1.0", true).Units...)...),
 			featuresSeg(false, advBind(1)), bindResult(false)}})
-	add(&Scenario{Name: "recv-pipelined-behind-auth", Entry: "receiver/pipelined-behind-restart", Neg: "std", Recv: true, Bits: bSecure, Feats: sb,
+	add(&Scenario{Name: "recv-pipelined-behind-auth", Entry: "receiver/pipelined-behind-restart", Neg: "std", Recv: true, Bits: bSecure, Feats: sb, NoReseg: true,
 		Clear: Stream{cliHeader(), SegOf(append(reqAuth(0, "PLAIN", plainOK).Units, cliHeader().Units...)...), reqBind(1, false)}})
 
 	// ---- a voluntary feature that reports Ready, followed by a failing one (features.go keeps the bit)
